@@ -125,7 +125,7 @@ def ent_record(uids: Uids, e):
     # comments and visual parameters get a data type of their own with every creation and copy: which one is not compared
     typ = 0 if type(e).__name__ in ("CommentsData", "VisualParameters") else uids.num(e.entity_type.uid)
     return {"uid": uids.num(e.uid), "kind": kind_of(e), "cls": type(e).__name__,
-            "typ": typ, "name": e.name, "ad": bool(e.allow_delete),
+            "typ": typ, "typ_real": uids.num(e.entity_type.uid), "name": e.name, "ad": bool(e.allow_delete),
             "attrs": attrs, "dsets": dsets, "pgs": sorted(pgs, key=lambda g: g["uid"]), "pg_order": pg_order}
 
 
@@ -274,7 +274,7 @@ def gen_ops(rng, n, weights=None, pool_uids=0):
     w = {"create_group": 3, "create_object": 5, "add_data": 7, "rename": 2, "flag": 2, "set_values": 3,
          "set_geometry": 2, "move": 3, "remove_ws": 3, "remove_parent": 2, "copy": 3, "pg_add": 3, "pg_remove": 1,
          "reopen": 2, "gc": 1, "protect": 1, "retype": 1, "reattach": 1, "comment": 2, "visual": 1, "remove_all": 1,
-         "detached_add": 1}
+         "detached_add": 1, "pg_create": 1}
     w.update(weights or {})
     kinds = [k for k, c in w.items() for _ in range(c)]
     ops = []
@@ -760,6 +760,29 @@ class Session:
             self.record({"o": "pgSet", "obj": self.uids.num(o.uid),
                          "pg": {"uid": self.uids.num(g.uid), "name": g.name,
                                 "props": sorted(self.uids.num(p) for p in (g.properties or []))}}, "ok")
+            return
+        if k == "pg_create":
+            # a property group created with an identifier the caller names (from the pool: it may be in use by an entity or
+            # by another property group)
+            o = self.pick(ents, op["a"], lambda x: is_obj(x) and any(is_data(c) and not special(c) for c in x.children))
+            if o is None:
+                return
+            datas = [c for c in o.children if is_data(c) and not special(c)]
+            d = datas[op["b"] % len(datas)]
+            u = self.new_uid(op)
+            name = self.next_name("pgc")
+            before = self.snap()
+            try:
+                o.create_property_group(name=name, uid=u, properties=[d.uid])
+            except Exception as e:  # noqa: BLE001
+                status = "refused:" + type(e).__name__
+                if self.snap() != before:
+                    self.failures.append((f"create_property_group with an identifier in use was refused ({type(e).__name__}) but "
+                                          "changed the workspace", "C06:refused-create-has-side-effects"))
+            self.events.append(f"pg_create {name} uid={self.uids.num(u)} on {self.uids.num(o.uid)} -> {status}")
+            self.record({"o": "pgSet", "obj": self.uids.num(o.uid),
+                         "pg": {"uid": self.uids.num(u), "name": name, "props": [self.uids.num(d.uid)]}}, status)
+            del datas, d
             return
         if k == "pg_remove":
             o = self.pick(ents, op["a"], lambda x: is_obj(x) and (getattr(x, "property_groups", None) or []))
